@@ -1,6 +1,7 @@
 """C16 — only the queried server's matching reply completes a query: accept-path guard set of the UDP
 receive loop (literal bound 3), fresh-id guard, routing key provenance, vacant => no send, close => fail-all."""
 import re
+import argnames
 from api import shorten, writers
 
 EXPLANATION = (
@@ -154,3 +155,8 @@ def run(cx):
                '<hickory_net::xfer::dns_multiplexer::DnsMultiplexer<S> as futures_core::stream::Stream>::poll_next'}
     bad = sorted({w[0].path for w in ws} - allowed)
     cx.check('C16.W1', not bad and len(ws) >= 4, M + 'DnsMultiplexer', 'writers', 'active_requests-writers', ', '.join(bad) or f'{len(ws)} mutable uses')
+
+    # ---------------------------------------------------------------- N1 argument names agree with the parameters they are bound to (engine/argnames.py)
+    argnames.check(cx, 'C16.N1', r'hickory_net::(udp|xfer)', floor=25)
+    argnames.check_fields(cx, 'C16.N1', r'hickory_net::(udp|xfer)', floor=42)
+
